@@ -131,4 +131,669 @@ theorem C11_encode_canonical (t : Ty) (v : Val) (h : wt t v = true) :
   encode_congr codec Spec.codec encP_canonical
     (fun n hn => C11_encodeUint_canonical n (by rw [← maxSeqLen_eq]; exact hn)) t v h
 
+/-! ## decoders: the Go primitives against the canonical ones -/
+
+/-- the values for which `decodeUint` accepts the canonical encoding (known finding uint-5to7:
+    [2^32, 2^56) is missing) -/
+def uintOk (n : Nat) : Bool :=
+  decide (n < 4294967296) || (decide (72057594037927936 ≤ n) && decide (n < 18446744073709551616))
+
+def filt (o : Option (Nat × Bytes)) : Option (Nat × Bytes) :=
+  match o with
+  | some (n, r) => if uintOk n then some (n, r) else none
+  | none => none
+
+theorem decodeUint_nil : decodeUintV [] = none := rfl
+
+theorem decodeUint_m0 {b : UInt8} (rest : Bytes) (m : b.toNat % 4 = 0) :
+    decodeUintV (b :: rest) = some (b.toNat / 4, rest) := by simp [decodeUintV, m]
+
+theorem decodeUint_m1_nil {b : UInt8} (m : b.toNat % 4 = 1) : decodeUintV [b] = none := by
+  simp [decodeUintV, m]
+
+theorem decodeUint_m1 {b : UInt8} (c : UInt8) (rest : Bytes) (m : b.toNat % 4 = 1) :
+    decodeUintV (b :: c :: rest) =
+      if (b.toNat + 256 * c.toNat) / 4 ≤ 63 ∨ (b.toNat + 256 * c.toNat) / 4 > 32767 then none
+      else some ((b.toNat + 256 * c.toNat) / 4, rest) := by
+  simp [decodeUintV, m]
+
+theorem decodeUint_m2 {b : UInt8} (rest : Bytes) (m : b.toNat % 4 = 2) :
+    decodeUintV (b :: rest) =
+      if rest.length < 3 then none
+      else if (b.toNat + 256 * natOfLE (rest.take 3)) / 4 ≤ 16383 ∨
+              (b.toNat + 256 * natOfLE (rest.take 3)) / 4 > 1073741823 then none
+      else some ((b.toNat + 256 * natOfLE (rest.take 3)) / 4, rest.drop 3) := by
+  by_cases hl : rest.length < 3
+  · simp [decodeUintV, m, readFull, hl]
+  · simp [decodeUintV, m, readFull, hl, natOfLE]
+
+theorem decodeUint_m3 {b : UInt8} (rest : Bytes) (m : b.toNat % 4 = 3) :
+    decodeUintV (b :: rest) =
+      if b.toNat / 4 + 4 ≠ 4 ∧ b.toNat / 4 + 4 ≠ 8 then none
+      else if rest.length < b.toNat / 4 + 4 then none
+      else if b.toNat / 4 + 4 = 4 then
+        (if natOfLE (rest.take (b.toNat / 4 + 4)) ≤ 1073741823 then none
+         else some (natOfLE (rest.take (b.toNat / 4 + 4)), rest.drop (b.toNat / 4 + 4)))
+      else
+        (if natOfLE (rest.take (b.toNat / 4 + 4)) ≤ 72057594037927935 then none
+         else some (natOfLE (rest.take (b.toNat / 4 + 4)), rest.drop (b.toNat / 4 + 4))) := by
+  by_cases h48 : b.toNat / 4 + 4 ≠ 4 ∧ b.toNat / 4 + 4 ≠ 8
+  · have h4 : 4 ≤ b.toNat := by omega
+    simp [decodeUintV, m, h48, h4]
+  · by_cases hl : rest.length < b.toNat / 4 + 4
+    · simp [decodeUintV, m, readFull, hl]
+    · simp only [decodeUintV, m, readFull, hl, h48, if_false]
+      simp
+
+theorem pow256_7 : (256:Nat) ^ 7 = 72057594037927936 := by decide
+
+/-- `decodeUint` accepts exactly the canonical compact encodings of the values in `uintOk` -/
+theorem decodeUint_spec (bs : Bytes) : decodeUintV bs = filt (compactDec bs) := by
+  cases bs with
+  | nil => simp [decodeUint_nil, compactDec, filt]
+  | cons b rest =>
+    have hb := b.toNat_lt
+    by_cases m0 : b.toNat % 4 = 0
+    · rw [decodeUint_m0 rest m0, compactDec_m0 rest m0]
+      have : uintOk (b.toNat / 4) = true := by simp [uintOk]; omega
+      simp [filt, this]
+    · by_cases m1 : b.toNat % 4 = 1
+      · cases rest with
+        | nil => rw [decodeUint_m1_nil m1, compactDec_m1_nil m1]; rfl
+        | cons c rest' =>
+          have hc := c.toNat_lt
+          rw [decodeUint_m1 c rest' m1, compactDec_m1 c rest' m1]
+          by_cases hv : 64 ≤ (b.toNat + 256 * c.toNat) / 4
+          · have h1 : ¬ ((b.toNat + 256 * c.toNat) / 4 ≤ 63 ∨ (b.toNat + 256 * c.toNat) / 4 > 32767) := by omega
+            have : uintOk ((b.toNat + 256 * c.toNat) / 4) = true := by simp [uintOk]; omega
+            simp [filt, hv, h1, this]
+          · have h1 : ((b.toNat + 256 * c.toNat) / 4 ≤ 63 ∨ (b.toNat + 256 * c.toNat) / 4 > 32767) := by omega
+            simp [filt, hv, h1]
+      · by_cases m2 : b.toNat % 4 = 2
+        · rw [decodeUint_m2 rest m2, compactDec_m2 rest m2]
+          by_cases hl : rest.length < 3
+          · simp [hl, filt]
+          · simp only [hl, if_false]
+            have hlen : (rest.take 3).length = 3 := by simp; omega
+            have hd := natOfLE_lt (rest.take 3)
+            rw [hlen, pow256_3] at hd
+            by_cases hv : 16384 ≤ (b.toNat + 256 * natOfLE (rest.take 3)) / 4
+            · have h1 : ¬ ((b.toNat + 256 * natOfLE (rest.take 3)) / 4 ≤ 16383 ∨
+                  (b.toNat + 256 * natOfLE (rest.take 3)) / 4 > 1073741823) := by omega
+              have : uintOk ((b.toNat + 256 * natOfLE (rest.take 3)) / 4) = true := by
+                simp [uintOk]; omega
+              simp [filt, hv, h1, this]
+            · have h1 : ((b.toNat + 256 * natOfLE (rest.take 3)) / 4 ≤ 16383 ∨
+                  (b.toNat + 256 * natOfLE (rest.take 3)) / 4 > 1073741823) := by omega
+              simp [filt, hv, h1]
+        · have m3 : b.toNat % 4 = 3 := by omega
+          rw [decodeUint_m3 rest m3, compactDec_m3 rest m3]
+          by_cases hl : rest.length < b.toNat / 4 + 4
+          · simp [hl, filt]
+          · simp only [hl, if_false]
+            have hlen : (rest.take (b.toNat / 4 + 4)).length = b.toNat / 4 + 4 := by simp; omega
+            have hd := natOfLE_lt (rest.take (b.toNat / 4 + 4))
+            rw [hlen] at hd
+            generalize hval : natOfLE (rest.take (b.toNat / 4 + 4)) = value at *
+            by_cases k4 : b.toNat / 4 = 0
+            · -- 4 payload bytes
+              simp only [k4, Nat.zero_add] at hd ⊢
+              rw [pow256_4] at hd
+              rw [pow256_3]
+              by_cases hv : value ≤ 1073741823
+              · have : ¬ (1073741824 ≤ value ∧ 16777216 ≤ value) := by omega
+                simp [filt, hv, this]
+              · have h2 : (1073741824 ≤ value ∧ 16777216 ≤ value) := by omega
+                have : uintOk value = true := by simp [uintOk]; omega
+                simp [filt, hv, h2, this]
+            · by_cases k8 : b.toNat / 4 = 4
+              · -- 8 payload bytes
+                simp only [k8] at hd ⊢
+                rw [show (4:Nat) + 4 = 8 from rfl, pow256_8] at hd
+                rw [show (4:Nat) + 3 = 7 from rfl, pow256_7]
+                by_cases hv : value ≤ 72057594037927935
+                · have : ¬ (1073741824 ≤ value ∧ 72057594037927936 ≤ value) := by omega
+                  simp [filt, hv, this]
+                · have h2 : (1073741824 ≤ value ∧ 72057594037927936 ≤ value) := by omega
+                  have : uintOk value = true := by simp [uintOk]; omega
+                  simp [filt, hv, h2, this]
+              · -- 5..7 or more than 8 payload bytes: rejected by Go; canonical values are not `uintOk`
+                have h48 : b.toNat / 4 + 4 ≠ 4 ∧ b.toNat / 4 + 4 ≠ 8 := by omega
+                simp only [h48, ne_eq, not_false_eq_true, and_self, if_true]
+                by_cases hc : 1073741824 ≤ value ∧ 256 ^ (b.toNat / 4 + 3) ≤ value
+                · simp only [hc, and_self, if_true, filt]
+                  have hnot : uintOk value = false := by
+                    simp only [uintOk, Bool.or_eq_false_iff, Bool.and_eq_false_iff, decide_eq_false_iff_not]
+                    by_cases klt : b.toNat / 4 < 4
+                    · -- 5..7 bytes: 2^32 ≤ value < 2^56
+                      have lo : 256 ^ 4 ≤ 256 ^ (b.toNat / 4 + 3) := pow256_mono (by omega)
+                      have hi : 256 ^ (b.toNat / 4 + 4) ≤ 256 ^ 7 := pow256_mono (by omega)
+                      rw [pow256_4] at lo; rw [pow256_7] at hi
+                      exact ⟨by omega, Or.inl (by omega)⟩
+                    · -- more than 8 bytes: value ≥ 2^64
+                      have lo : 256 ^ 8 ≤ 256 ^ (b.toNat / 4 + 3) := pow256_mono (by omega)
+                      rw [pow256_8] at lo
+                      exact ⟨by omega, Or.inr (by omega)⟩
+                  simp [hnot]
+                · simp [hc, filt]
+
+
+/-- a non-zero top digit puts the value at or above `256^(len-1)` -/
+theorem le_natOfLE_of_getLast (d : Bytes) (hne : d ≠ []) (h : d.getLast hne ≠ 0) :
+    256 ^ (d.length - 1) ≤ natOfLE d := by
+  have hd : d = d.dropLast ++ [d.getLast hne] := (List.dropLast_concat_getLast hne).symm
+  have hpos : 1 ≤ (d.getLast hne).toNat := by
+    have : (d.getLast hne).toNat ≠ 0 := fun hz => h (UInt8.toNat_inj.mp (by simpa using hz))
+    omega
+  have hv : natOfLE d = natOfLE d.dropLast + 256 ^ (d.length - 1) * (d.getLast hne).toNat := by
+    conv => lhs; rw [hd]
+    rw [natOfLE_append, List.length_dropLast]; simp [natOfLE]
+  rw [hv]
+  have : 256 ^ (d.length - 1) * 1 ≤ 256 ^ (d.length - 1) * (d.getLast hne).toNat :=
+    Nat.mul_le_mul_left _ hpos
+  omega
+
+theorem decBigV_m0 {b : UInt8} (rest : Bytes) (m : b.toNat % 4 = 0) :
+    decBigV (b :: rest) = some (b.toNat / 4, rest) := by simp [decBigV, m]
+
+theorem decBigV_m1_nil {b : UInt8} (m : b.toNat % 4 = 1) : decBigV [b] = none := by
+  simp [decBigV, m]
+
+theorem decBigV_m1 {b : UInt8} (c : UInt8) (rest : Bytes) (m : b.toNat % 4 = 1) :
+    decBigV (b :: c :: rest) =
+      if (b.toNat + 256 * c.toNat) / 4 ≤ 63 then none
+      else some ((b.toNat + 256 * c.toNat) / 4, rest) := by
+  simp [decBigV, m]
+
+theorem decBigV_m2 {b : UInt8} (rest : Bytes) (m : b.toNat % 4 = 2) :
+    decBigV (b :: rest) =
+      if rest.length < 3 then none
+      else if (b.toNat + 256 * natOfLE (rest.take 3)) / 4 ≤ 16383 then none
+      else some ((b.toNat + 256 * natOfLE (rest.take 3)) / 4, rest.drop 3) := by
+  by_cases hl : rest.length < 3
+  · simp [decBigV, m, readFull, hl]
+  · by_cases hc : (b.toNat + 256 * natOfLE (rest.take 3)) / 4 ≤ 16383
+    · simp [decBigV, m, readFull, hl, natOfLE, hc]
+    · simp [decBigV, m, readFull, hl, natOfLE, hc]
+
+theorem decBigV_m3 {b : UInt8} (rest : Bytes) (m : b.toNat % 4 = 3) :
+    decBigV (b :: rest) =
+      if rest.length < b.toNat / 4 + 4 then none
+      else if (rest.take (b.toNat / 4 + 4)).getLast? = some 0 then none
+      else if b.toNat / 4 + 4 = 4 ∧ natOfLE (rest.take (b.toNat / 4 + 4)) < 1073741824 then none
+      else some (natOfLE (rest.take (b.toNat / 4 + 4)), rest.drop (b.toNat / 4 + 4)) := by
+  by_cases hl : rest.length < b.toNat / 4 + 4
+  · simp [decBigV, m, readFull, hl]
+  · simp only [decBigV, m, readFull, hl, if_false]
+    simp
+
+/-- `decodeBigInt` accepts exactly the canonical compact encodings -/
+theorem decBigV_spec (bs : Bytes) : decBigV bs = compactDec bs := by
+  cases bs with
+  | nil => simp [decBigV, compactDec]
+  | cons b rest =>
+    have hb := b.toNat_lt
+    by_cases m0 : b.toNat % 4 = 0
+    · rw [decBigV_m0 rest m0, compactDec_m0 rest m0]
+    · by_cases m1 : b.toNat % 4 = 1
+      · cases rest with
+        | nil => rw [decBigV_m1_nil m1, compactDec_m1_nil m1]
+        | cons c rest' =>
+          rw [decBigV_m1 c rest' m1, compactDec_m1 c rest' m1]
+          by_cases hv : 64 ≤ (b.toNat + 256 * c.toNat) / 4
+          · have h1 : ¬ ((b.toNat + 256 * c.toNat) / 4 ≤ 63) := by omega
+            simp [hv, h1]
+          · have h1 : ((b.toNat + 256 * c.toNat) / 4 ≤ 63) := by omega
+            simp [hv, h1]
+      · by_cases m2 : b.toNat % 4 = 2
+        · rw [decBigV_m2 rest m2, compactDec_m2 rest m2]
+          by_cases hl : rest.length < 3
+          · simp [hl]
+          · simp only [hl, if_false]
+            by_cases hv : 16384 ≤ (b.toNat + 256 * natOfLE (rest.take 3)) / 4
+            · have h1 : ¬ ((b.toNat + 256 * natOfLE (rest.take 3)) / 4 ≤ 16383) := by omega
+              simp [hv, h1]
+            · have h1 : ((b.toNat + 256 * natOfLE (rest.take 3)) / 4 ≤ 16383) := by omega
+              simp [hv, h1]
+        · have m3 : b.toNat % 4 = 3 := by omega
+          rw [decBigV_m3 rest m3, compactDec_m3 rest m3]
+          by_cases hl : rest.length < b.toNat / 4 + 4
+          · simp [hl]
+          · simp only [hl, if_false]
+            have hlen : (rest.take (b.toNat / 4 + 4)).length = b.toNat / 4 + 4 := by simp; omega
+            have hne : rest.take (b.toNat / 4 + 4) ≠ [] := by
+              intro hz; rw [hz] at hlen; simp at hlen
+            have hd := natOfLE_lt (rest.take (b.toNat / 4 + 4))
+            rw [hlen] at hd
+            rw [List.getLast?_eq_some_getLast hne]
+            by_cases htop : (rest.take (b.toNat / 4 + 4)).getLast hne = 0
+            · -- zero top byte: below 256^(len-1)
+              have hnot : ¬ (256 ^ (b.toNat / 4 + 3) ≤ natOfLE (rest.take (b.toNat / 4 + 4))) := by
+                intro hle
+                exact getLast_ne_zero_of_le _ hne (by
+                  rw [hlen, show b.toNat / 4 + 4 - 1 = b.toNat / 4 + 3 by omega]; exact hle) htop
+              simp [htop, hnot]
+            · have hle := le_natOfLE_of_getLast _ hne htop
+              rw [hlen, show b.toNat / 4 + 4 - 1 = b.toNat / 4 + 3 by omega] at hle
+              have h1 : ¬ (some ((rest.take (b.toNat / 4 + 4)).getLast hne) = some 0) := by
+                intro h; exact htop (Option.some.inj h)
+              simp only [h1, if_false]
+              by_cases k4 : b.toNat / 4 = 0
+              · simp only [k4, Nat.zero_add] at hle ⊢
+                by_cases hv : natOfLE (rest.take 4) < 1073741824
+                · have : ¬ (1073741824 ≤ natOfLE (rest.take 4) ∧ 256 ^ 3 ≤ natOfLE (rest.take 4)) := by omega
+                  simp [hv, this]
+                · have : (1073741824 ≤ natOfLE (rest.take 4) ∧ 256 ^ 3 ≤ natOfLE (rest.take 4)) :=
+                    ⟨by omega, hle⟩
+                  simp [hv, this]
+              · have lo : 256 ^ 4 ≤ 256 ^ (b.toNat / 4 + 3) := pow256_mono (by omega)
+                rw [pow256_4] at lo
+                have h2 : ¬ (b.toNat / 4 + 4 = 4 ∧
+                    natOfLE (rest.take (b.toNat / 4 + 4)) < 1073741824) := by omega
+                have h3 : (1073741824 ≤ natOfLE (rest.take (b.toNat / 4 + 4)) ∧
+                    256 ^ (b.toNat / 4 + 3) ≤ natOfLE (rest.take (b.toNat / 4 + 4))) := ⟨by omega, hle⟩
+                simp [h2, h3]
+
+
+/-! ### every primitive decoder against the canonical one -/
+
+theorem decFixed_u (w : Nat) (bs : Bytes) :
+    (decFixed w false bs).res = Spec.decKind (.uint w) bs ∧ (decFixed w false bs).zf = false := by
+  unfold decFixed readFull
+  by_cases hl : bs.length < w <;> simp [hl, PRes.fail, PRes.ok, Spec.decKind]
+
+theorem goSigned_eq (w n : Nat) : goSigned w n = Spec.untwos w n := rfl
+
+theorem decFixed_s (w : Nat) (bs : Bytes) :
+    (decFixed w true bs).res = Spec.decKind (.sint w) bs ∧ (decFixed w true bs).zf = false := by
+  unfold decFixed readFull
+  by_cases hl : bs.length < w <;> simp [hl, PRes.fail, PRes.ok, Spec.decKind, goSigned_eq]
+
+theorem decBool_spec (bs : Bytes) :
+    (decBool bs).res = Spec.decKind .bool bs ∧ (decBool bs).zf = false := by
+  cases bs with
+  | nil => simp [decBool, PRes.fail, Spec.decKind]
+  | cons b r =>
+    by_cases h0 : b = 0
+    · simp [decBool, h0, PRes.ok, Spec.decKind]
+    · by_cases h1 : b = 1
+      · simp [decBool, h1, PRes.ok, Spec.decKind]
+      · simp [decBool, h0, h1, PRes.fail, Spec.decKind]
+
+/-- the Go compact decoder relative to the canonical one: values outside `uintOk` are refused -/
+def goFilter : Prim → Option (Val × Bytes) → Option (Val × Bytes)
+  | .compact, some (.nat n, r) => if uintOk n then some (.nat n, r) else none
+  | _, o => o
+
+theorem uintOk_lt {n : Nat} (h : uintOk n = true) : n < 256 ^ 8 := by
+  rw [pow256_8]
+  simp only [uintOk, Bool.or_eq_true, Bool.and_eq_true, decide_eq_true_eq] at h
+  omega
+
+theorem decCompact_spec (bs : Bytes) :
+    (decCompact bs).res = goFilter .compact (Spec.decKind (.compact 8) bs) ∧
+      (decCompact bs).zf = false := by
+  unfold decCompact
+  rw [decodeUint_spec]
+  simp only [Spec.decKind]
+  cases hc : compactDec bs with
+  | none => simp [filt, PRes.fail, goFilter]
+  | some q =>
+    obtain ⟨n, r⟩ := q
+    by_cases hok : uintOk n = true
+    · have := uintOk_lt hok
+      simp [filt, hok, PRes.ok, goFilter, this]
+    · have hf : uintOk n = false := by simpa using hok
+      by_cases hlt : n < 256 ^ 8
+      · simp [filt, hf, PRes.fail, goFilter, hlt]
+      · simp [filt, hf, PRes.fail, goFilter, hlt]
+
+theorem decBig_spec (bs : Bytes) :
+    (decBig bs).res = Spec.decKind (.compact 67) bs ∧ (decBig bs).zf = false := by
+  unfold decBig
+  rw [decBigV_spec]
+  simp only [Spec.decKind]
+  cases hc : compactDec bs with
+  | none => simp [PRes.fail]
+  | some q =>
+    obtain ⟨n, r⟩ := q
+    have := (compactDec_sound hc).1
+    simp [PRes.ok, this]
+
+/-- `decodeBytes` against the canonical byte-string decoder: equal unless a short read was
+    zero-filled, and then the canonical decoder rejects the input -/
+theorem decBytes_spec (bs : Bytes) :
+    ((decBytes bs).zf = false → (decBytes bs).res = Spec.decKind .bytes bs) ∧
+    ((decBytes bs).zf = true → Spec.decKind .bytes bs = none) := by
+  unfold decBytes
+  rw [decodeUint_spec]
+  simp only [Spec.decKind]
+  cases hc : compactDec bs with
+  | none => simp [filt, PRes.fail]
+  | some q =>
+    obtain ⟨n, r⟩ := q
+    by_cases hok : uintOk n = true
+    · simp only [filt, hok, if_true]
+      by_cases hbig : n > 4294967295
+      · have : ¬ (n < maxBytesLen ∧ n ≤ r.length) := by
+          have : maxBytesLen = 4294967296 := rfl
+          omega
+        simp [hbig, this, PRes.fail]
+      · have hlt : n < maxBytesLen := by
+          have : maxBytesLen = 4294967296 := rfl
+          omega
+        simp only [hbig, if_false]
+        by_cases hz : n = 0
+        · subst hz; simp [PRes.ok, hlt]
+        · simp only [hz, if_false]
+          cases r with
+          | nil =>
+            simp [PRes.fail]
+            intro _; exact hz
+          | cons x xs =>
+            simp only [List.isEmpty_cons, Bool.false_eq_true, if_false, PRes.ok]
+            by_cases hshort : (x :: xs).length < n
+            · have hs : xs.length + 1 < n := by simpa using hshort
+              simp
+              exact ⟨fun h => by omega, fun _ _ => hs⟩
+            · have hs : n ≤ xs.length + 1 := by simpa using hshort
+              simp
+              exact ⟨fun h => ⟨⟨hlt, h⟩, Or.inl (by omega)⟩, fun h _ => h⟩
+    · have hf : uintOk n = false := by simpa using hok
+      have hge : ¬ n < 4294967296 := by
+        simp only [uintOk, Bool.or_eq_false_iff, decide_eq_false_iff_not] at hf
+        exact hf.1
+      have : ¬ (n < maxBytesLen ∧ n ≤ r.length) := by
+        have : maxBytesLen = 4294967296 := rfl
+        omega
+      simp [filt, hf, PRes.fail, this]
+
+/-- **Every primitive**: when no short read was zero-filled, the Go primitive decoder returns what
+    the canonical one returns (refusing compact values outside `uintOk`); when one was, the
+    canonical decoder rejects the input. -/
+theorem decPA_spec (p : Prim) (bs : Bytes) :
+    ((decPA p bs).zf = false → (decPA p bs).res = goFilter p (Spec.decKind p.kind bs)) ∧
+    ((decPA p bs).zf = true → Spec.decKind p.kind bs = none) := by
+  cases p <;> simp only [decPA, Prim.kind, goFilter]
+  case u8 => have := decFixed_u 1 bs; simp [this.1, this.2]
+  case u16 => have := decFixed_u 2 bs; simp [this.1, this.2]
+  case u32 => have := decFixed_u 4 bs; simp [this.1, this.2]
+  case u64 => have := decFixed_u 8 bs; simp [this.1, this.2]
+  case u128 => have := decFixed_u 16 bs; simp [this.1, this.2]
+  case i8 => have := decFixed_s 1 bs; simp [this.1, this.2]
+  case i16 => have := decFixed_s 2 bs; simp [this.1, this.2]
+  case i32 => have := decFixed_s 4 bs; simp [this.1, this.2]
+  case i64 => have := decFixed_s 8 bs; simp [this.1, this.2]
+  case compact => have := decCompact_spec bs; simp [this.1, this.2, goFilter]
+  case big => have := decBig_spec bs; simp [this.1, this.2]
+  case bool => have := decBool_spec bs; simp [this.1, this.2]
+  case bytes => exact decBytes_spec bs
+  case str => exact decBytes_spec bs
+
+
+/-! ## round trip of the Go codec -/
+
+/-- the leaves on which the Go decoder accepts what the Go encoder wrote: everything except a
+    Go `uint` (or a length) in [2^32, 2^56) -/
+def okLeaf : Prim → Val → Bool
+  | .compact, .nat n => uintOk n
+  | _, _ => true
+
+def okLen (n : Nat) : Bool := uintOk n
+
+theorem goFilter_ok (p : Prim) (v : Val) (r : Bytes) (h : okLeaf p v = true) :
+    goFilter p (some (v, r)) = some (v, r) := by
+  cases p <;> cases v <;> simp_all [goFilter, okLeaf]
+
+theorem model_rtP (p : Prim) (v : Val) (r : Bytes) (hw : wtKind p.kind v = true)
+    (hq : okLeaf p v = true) : codec.decP p (codec.encP p v ++ r) = some (v, r) := by
+  show (decPA p (encP p v ++ r)).res = some (v, r)
+  rw [encP_canonical p v hw]
+  have hs : Spec.decKind p.kind (Spec.encKind p.kind v ++ r) = some (v, r) := Spec.rt.rtP p v r hw
+  have ⟨h1, h2⟩ := decPA_spec p (Spec.encKind p.kind v ++ r)
+  cases hz : (decPA p (Spec.encKind p.kind v ++ r)).zf with
+  | true => have := h2 hz; rw [hs] at this; cases this
+  | false => rw [h1 hz, hs]; exact goFilter_ok p v r hq
+
+theorem model_rtLen (n : Nat) (r : Bytes) (hn : n < maxSeqLen) (hq : okLen n = true) :
+    codec.decLen (codec.encLen n ++ r) = some (n, r) := by
+  show decodeUintV (encodeUint n ++ r) = some (n, r)
+  rw [C11_encodeUint_canonical n (by rw [← maxSeqLen_eq]; exact hn), decodeUint_spec,
+    compactDec_enc n (Nat.lt_of_lt_of_le hn maxSeqLen_lt) r]
+  simp only [okLen] at hq
+  simp [filt, hq]
+
+/-- **Round trip** (partial: known finding uint-5to7).  Full statement wanted:
+    `wt t v → unmarshal t (marshal t v ++ r) = some (v, r)`.  It holds whenever no Go `uint` leaf
+    and no sequence length of the value lies in [2^32, 2^56) (`leavesOk okLeaf okLen`). -/
+theorem C11_roundtrip_partial (t : Ty) (v : Val) (r : Bytes) (h : wt t v = true)
+    (hq : leavesOk okLeaf okLen t v = true) : unmarshal t (marshal t v ++ r) = some (v, r) :=
+  roundtripOn codec okLeaf okLen model_rtP model_rtLen t v r h hq
+
+/-- … and decoding the encoding yields a value whose encoding is the same bytes (canonical) -/
+theorem C11_roundtrip_canonical (t : Ty) (v : Val) (r : Bytes) (h : wt t v = true)
+    (hq : leavesOk okLeaf okLen t v = true) :
+    unmarshal t (encode Spec.codec t v ++ r) = some (v, r) := by
+  rw [← C11_encode_canonical t v h]; exact C11_roundtrip_partial t v r h hq
+
+/-- the excluded region is real: 2^32 is a well-typed Go `uint`, its encoding `07 00 00 00 00 01`
+    is canonical, and the Go decoder rejects it -/
+theorem C11_roundtrip_counterexample :
+    wt (.prim .compact) (.nat 4294967296) = true ∧
+    marshal (.prim .compact) (.nat 4294967296) = [7, 0, 0, 0, 0, 1] ∧
+    (unmarshal (.prim .compact) (marshal (.prim .compact) (.nat 4294967296))).isNone = true := by
+  refine ⟨by decide, by decide, by decide⟩
+
+/-- the hypotheses of `C11_roundtrip_partial` are satisfiable by a non-trivial value -/
+example : wt (.pair (.prim .compact) (.pair (.seq (.prim .u16)) .unit))
+      (.pair (.nat 72057594037927936) (.pair (.list [.nat 1, .nat 65535]) .unit)) = true ∧
+    leavesOk okLeaf okLen (.pair (.prim .compact) (.pair (.seq (.prim .u16)) .unit))
+      (.pair (.nat 72057594037927936) (.pair (.list [.nat 1, .nat 65535]) .unit)) = true := by
+  decide
+
+/-! ## the pointer walk of `marshal` -/
+
+theorem optJoin_map (f : Val → Option Bytes) (g : Val → Bytes) (vs : List Val)
+    (h : ∀ v ∈ vs, f v = some (g v)) : optJoin (vs.map f) = some (encList g vs) := by
+  induction vs with
+  | nil => rfl
+  | cons v vs ih =>
+    simp only [List.map_cons, optJoin, encList]
+    rw [h v (by simp)]
+    simp only [optJoin]
+    rw [ih (fun w hw => h w (by simp [hw]))]; rfl
+
+/-- **Marshal as walked by the Go code** (partial: known finding opt-vdt): below no pointer to a
+    varying data type the reflect walk writes exactly `marshal t v`. -/
+theorem C11_marshalGo_partial (t : Ty) (h : C12.hasOptVdt t = false) :
+    ∀ v, marshalGo t v = some (marshal t v) := by
+  induction t with
+  | prim p => intro v; simp [marshalGo, marshal, encode, codec]
+  | unit => intro v; simp [marshalGo, marshal, encode]
+  | pair a b iha ihb =>
+    simp only [C12.hasOptVdt, Bool.or_eq_false_iff] at h
+    intro v
+    cases v <;> simp [marshalGo, marshal, encode]
+    rename_i x y
+    have := iha h.1 x; have := ihb h.2 y
+    simp_all [marshal]
+  | option t ih =>
+    simp only [C12.hasOptVdt, Bool.or_eq_false_iff] at h
+    intro v
+    cases v <;> simp [marshalGo, marshal, encode, h.1]
+    rename_i x
+    have := ih h.2 x
+    simp_all [marshal]
+  | result a b iha ihb =>
+    simp only [C12.hasOptVdt, Bool.or_eq_false_iff] at h
+    intro v
+    cases v <;> simp [marshalGo, marshal, encode]
+    · rename_i x; have := iha h.1 x; simp_all [marshal]
+    · rename_i x; have := ihb h.2 x; simp_all [marshal]
+  | array n t ih =>
+    simp only [C12.hasOptVdt] at h
+    intro v
+    cases v <;> simp [marshalGo, marshal, encode]
+    rename_i vs
+    exact optJoin_map _ _ vs (fun w _ => ih h w)
+  | seq t ih =>
+    simp only [C12.hasOptVdt] at h
+    intro v
+    cases v <;> simp [marshalGo, marshal, encode]
+    rename_i vs
+    rw [optJoin_map _ (encode codec t) vs (fun w _ => ih h w)]
+    simp [codec]
+  | enumNil => intro v; cases v <;> simp [marshalGo, marshal, encode]
+  | enumCons i t rest iht ihr =>
+    simp only [C12.hasOptVdt, Bool.or_eq_false_iff] at h
+    intro v
+    cases v <;> simp [marshalGo, marshal, encode]
+    rename_i j x
+    by_cases hj : j = i
+    · subst hj
+      have := iht h.1 x
+      simp_all [marshal]
+    · have := ihr h.2 (.variant j x)
+      simp_all [marshal]
+
+/-- the excluded region is real: `Some(v)` behind a pointer to a varying data type is written
+    without its option byte, `None` panics -/
+theorem C11_marshalGo_counterexample :
+    marshalGo (.option (.enumCons 0 (.prim .u8) .enumNil)) (.some (.variant 0 (.nat 5))) = some [0, 5] ∧
+    encode Spec.codec (.option (.enumCons 0 (.prim .u8) .enumNil)) (.some (.variant 0 (.nat 5))) = [1, 0, 5] ∧
+    marshalGo (.option (.enumCons 0 (.prim .u8) .enumNil)) .none = none := by
+  refine ⟨by decide, by decide, by decide⟩
+
+
+/-! ## struct field order (`fieldScaleIndices`) -/
+
+theorem insertTagged_perm (x : Nat × Int) (l : List (Nat × Int)) :
+    (insertTagged x l).Perm (x :: l) := by
+  induction l with
+  | nil => exact List.Perm.refl _
+  | cons y ys ih =>
+    simp only [insertTagged]
+    split
+    · exact List.Perm.refl _
+    · exact ((List.Perm.cons y ih).trans (List.Perm.swap x y ys))
+
+theorem sortTagged_perm (l : List (Nat × Int)) : (sortTagged l).Perm l := by
+  induction l with
+  | nil => exact List.Perm.refl _
+  | cons x xs ih => exact (insertTagged_perm x _).trans (List.Perm.cons x ih)
+
+theorem insertTagged_sorted (x : Nat × Int) (l : List (Nat × Int))
+    (h : l.Pairwise (fun a b => a.2 ≤ b.2)) : (insertTagged x l).Pairwise (fun a b => a.2 ≤ b.2) := by
+  induction l with
+  | nil => simp [insertTagged]
+  | cons y ys ih =>
+    have ⟨hy, hys⟩ := List.pairwise_cons.1 h
+    simp only [insertTagged]
+    split
+    · rename_i hlt
+      refine List.pairwise_cons.2 ⟨fun z hz => ?_, h⟩
+      rcases List.mem_cons.1 hz with e | e
+      · subst e; omega
+      · have := hy z e; omega
+    · rename_i hge
+      refine List.pairwise_cons.2 ⟨fun z hz => ?_, ih hys⟩
+      have hz' := (insertTagged_perm x ys).mem_iff.1 hz
+      rcases List.mem_cons.1 hz' with e | e
+      · subst e; omega
+      · exact hy z e
+
+theorem sortTagged_sorted (l : List (Nat × Int)) : (sortTagged l).Pairwise (fun a b => a.2 ≤ b.2) := by
+  induction l with
+  | nil => simp [sortTagged]
+  | cons x xs ih => exact insertTagged_sorted x _ ih
+
+theorem zipIdx_pairwise {α : Type} (l : List α) (k : Nat) :
+    (l.zipIdx k).Pairwise (fun a b => a.2 < b.2) := by
+  induction l generalizing k with
+  | nil => simp
+  | cons x xs ih =>
+    simp only [List.zipIdx_cons]
+    refine List.pairwise_cons.2 ⟨fun z hz => ?_, ih (k + 1)⟩
+    have := List.le_snd_of_mem_zipIdx hz
+    simp only; omega
+
+/-- the tagged fields `(index, tag)` and the untagged indices of a struct -/
+def taggedOf (tags : List FieldTag) : List (Nat × Int) :=
+  tags.zipIdx.filterMap (fun (t, i) => match t with | some (some k) => some (i, k) | _ => none)
+def untaggedOf (tags : List FieldTag) : List Nat :=
+  tags.zipIdx.filterMap (fun (t, i) => match t with | none => some i | _ => none)
+
+theorem fieldOrder_eq (tags : List FieldTag) :
+    fieldOrder tags = (sortTagged (taggedOf tags)).map (·.1) ++ untaggedOf tags := rfl
+
+theorem mem_taggedOf (tags : List FieldTag) (i : Nat) (k : Int) :
+    (i, k) ∈ taggedOf tags ↔ tags[i]? = some (some (some k)) := by
+  simp only [taggedOf, List.mem_filterMap]
+  constructor
+  · rintro ⟨⟨t, j⟩, hm, hf⟩
+    have := List.mem_zipIdx_iff_getElem?.1 hm
+    simp only at this
+    cases t with
+    | none => simp at hf
+    | some t' =>
+      cases t' with
+      | none => simp at hf
+      | some k' =>
+        simp only [Option.some.injEq, Prod.mk.injEq] at hf
+        rw [← hf.1, ← hf.2]; exact this
+  · intro h
+    exact ⟨(some (some k), i), List.mem_zipIdx_iff_getElem?.2 h, rfl⟩
+
+theorem mem_untaggedOf (tags : List FieldTag) (i : Nat) :
+    i ∈ untaggedOf tags ↔ tags[i]? = some none := by
+  simp only [untaggedOf, List.mem_filterMap]
+  constructor
+  · rintro ⟨⟨t, j⟩, hm, hf⟩
+    have := List.mem_zipIdx_iff_getElem?.1 hm
+    simp only at this
+    cases t with
+    | none => simp only [Option.some.injEq] at hf; rw [← hf]; exact this
+    | some t' => cases t' <;> simp at hf
+  · intro h
+    exact ⟨(none, i), List.mem_zipIdx_iff_getElem?.2 h, rfl⟩
+
+/-- **Field order, membership**: the encoding order contains exactly the fields that are not
+    skipped (`scale:"-"`): those without a tag and those with a numeric tag. -/
+theorem C11_fieldOrder_mem (tags : List FieldTag) (i : Nat) :
+    i ∈ fieldOrder tags ↔ (tags[i]? = some none ∨ ∃ k, tags[i]? = some (some (some k))) := by
+  rw [fieldOrder_eq, List.mem_append, List.mem_map]
+  constructor
+  · rintro (⟨⟨j, k⟩, hm, hj⟩ | h)
+    · simp only at hj; subst hj
+      exact Or.inr ⟨k, (mem_taggedOf tags j k).1 ((sortTagged_perm _).mem_iff.1 hm)⟩
+    · exact Or.inl ((mem_untaggedOf tags i).1 h)
+  · rintro (h | ⟨k, h⟩)
+    · exact Or.inr ((mem_untaggedOf tags i).2 h)
+    · exact Or.inl ⟨(i, k), (sortTagged_perm _).mem_iff.2 ((mem_taggedOf tags i k).2 h), rfl⟩
+
+/-- **Field order, shape**: first the tagged fields in ascending tag order (a permutation of the
+    tagged fields), then the untagged fields in declaration order. -/
+theorem C11_fieldOrder_sorted (tags : List FieldTag) :
+    ∃ (ts : List (Nat × Int)) (us : List Nat), fieldOrder tags = ts.map (·.1) ++ us ∧
+      ts.Perm (taggedOf tags) ∧ ts.Pairwise (fun a b => a.2 ≤ b.2) ∧
+      us = untaggedOf tags ∧ us.Pairwise (· < ·) := by
+  refine ⟨sortTagged (taggedOf tags), untaggedOf tags, fieldOrder_eq tags, sortTagged_perm _,
+    sortTagged_sorted _, rfl, ?_⟩
+  unfold untaggedOf
+  refine List.Pairwise.filterMap _ ?_ (zipIdx_pairwise tags 0)
+  intro a a' hlt b hb b' hb'
+  obtain ⟨t, i⟩ := a
+  obtain ⟨t', i'⟩ := a'
+  cases t with
+  | none =>
+    cases t' with
+    | none =>
+      simp only [Option.some.injEq] at hb hb'
+      subst hb; subst hb'; exact hlt
+    | some x => cases x <;> simp at hb'
+  | some x => cases x <;> simp at hb
+
+example : fieldOrder [some (some 2), some none, some (some (-1)), none, none] = [2, 0, 3, 4] := by decide
+
+
 end Gossamer.C11
